@@ -5,7 +5,8 @@ cd /verif
 for d in seeded/*/; do
   n=$(basename $d)
   [ -n "$1" ] && [[ "$n" != *$1* ]] && continue
-  prop=$(python3 -c "import json;print(json.load(open('$d/meta.json'))['property'])")
+  # (meta key check_with: the checks that report the change when it is not the check of `property`)
+  prop=$(python3 -c "import json;m=json.load(open('$d/meta.json'));print(' '.join(m.get('check_with',[m['property']])))")
   p=$d/patch.diff; [ -f $d/patch_head.diff ] && p=$d/patch_head.diff
   printf "%-36s " "$n"
   ./tools/seedtest.sh /verif/$p $prop 2>&1 | grep "^==" | cut -c1-120
